@@ -376,6 +376,22 @@ def buffer_tables(prog, chk):
                 judge(inst, fe, I, I.run(), B, need, hdr, 0, expect_refusal_allowed=True, moved=(None if opt else "block"), outkey=("*" + en[3],))
 
 
+    # ---- tlv_element.c: an expanded element with no child left (every child removed): empty payload, whatever length it had recorded
+    for stale in (0, 5, 99):
+        hdr = ref_header(5, 0, 0, 0)
+        need = len(hdr)
+        for B in (0, 1, 2, 3, 9):
+            for opt in (0, NOMOVE):
+                length, element_at = list_overrides({"SUB": []})
+                inputs = {en[0]: Ptr("E"), en[1]: Ptr("BUF"), en[2]: B, en[3]: Ptr("OUT"), en[4]: opt, "E->subList": Ptr("SUB"), "E->ptr": Ptr("SRC"),
+                          "E->ftlv.dat_len": stale, "E->ftlv.hdr_len": 2, "E->ftlv.tag": 5, "E->ftlv.is_nc": 0, "E->ftlv.is_fwd": 0}
+                ov5 = {"memcpy": lambda I, p, n, a: a[0], "memmove": lambda I, p, n, a: a[0], "KSI_TlvElementList_length": length, "KSI_TlvElementList_elementAt": element_at}
+                I = BufInterp(fe, {"BUF": B}, inputs=inputs, call_model=inline_model(prog, {"KSI_TlvElement_serialize"}, fallback=succeed_model(prog, ov5)),
+                              on_unknown="stop", prog=prog, loop_bound=8)
+                inst = "KSI_TlvElement_serialize[expanded, no child left, recorded length %d,buffer=%d,%s]" % (stale, B, "in place" if opt else "moved to front")
+                judge(inst, fe, I, I.run(), B, need, hdr, 0, expect_refusal_allowed=True, moved=(None if opt else "block"), outkey=("*" + en[3],))
+
+
 def remap_table(prog, chk):
     """remap() (used by KSI_TlvElement_detach): after re-serialization every node points at its own element in the new buffer, whatever
     header size it had before."""
